@@ -100,13 +100,16 @@ class StmtMixin:
                     continue
                 if getattr(c, 'yield_type', None) is not None:
                     v = self.coerce(v, c.yield_type)
+                held = []
                 for j, e in enumerate(c.yield_asserts):
                     from .execcall import clause
                     e2, props = clause(e)
                     self.clause_props = props
                     self.prove(s1, self.spec(e2, s1, {'yielded': v}, self.fn_old), 'yield', line, str(j), text=e2,
-                               stable_name='%s:yield:%d' % (self.cur_fn_stack[0].split(':')[1], j))
+                               stable_name='%s:yield:%d' % (self.cur_fn_stack[0].split(':')[1], j), defer=held)
                     self.clause_props = None
+                for g in held:
+                    s1.assume(g)
                 s1.ghost['__yields__'] = s1.ghost.get('__yields__', 0) + 1
                 yield s1, NORMAL
             return
